@@ -34,6 +34,9 @@ structure SourceFacts where
   backoffIsMinTimesTwoToAttempt : Bool
   /-- … capped at max — `Rec.backoff` -/
   backoffCappedAtMax : Bool
+  /-- `processRetries` has no other condition (no early exit) and every path returns
+      `retries.LowWatermark()` computed then and there — `R.round`: `lw := r.lowWatermark` -/
+  retriesReturnFreshLowWatermark : Bool
   deriving DecidableEq, Repr
 
 /-- what the model assumes -/
@@ -42,6 +45,7 @@ def expectedFacts : SourceFacts := {
   singleClearsThenProcesses := true, onlyPendingOrRefreshingOrDeleted := true, roundEndsWhenFull := true,
   deleteFailureQueuesRetry := true, statusFallbackOnlyForSamePendingId := true, retryOnlyAfterStatusWritten := true,
   doneIffNoError := true, retriesWhileRoundNotFull := true, retriesOnlyWhenDue := true,
-  backoffIsMinTimesTwoToAttempt := true, backoffCappedAtMax := true }
+  backoffIsMinTimesTwoToAttempt := true, backoffCappedAtMax := true,
+  retriesReturnFreshLowWatermark := true }
 
 end Sdb.Rec
